@@ -34,6 +34,11 @@ RULE = ("Part 'params': SimulationParameters with 1..6 parameters drawn "
         "contains a numpy scalar, array or set AND has >= 1 unpacked "
         "parameter (filename part: >= 2 embedded parameters); distinct = "
         "SHA-1 of the case.")
+RULE += (" Added after the white-box review: "
+         "histories may end with a merge with a non-empty result; "
+         "names without extension are also loaded without it; embedded "
+         "strings may contain non-ASCII letters ")
+
 LEVEL_TEXT = ("Generated-input search (Hypothesis, seeded, sharded) over "
               "parameter dictionaries, unpacked marks, result histories and "
               "file-name templates; oracle = inverse (load(save(x)) == x) "
